@@ -22,6 +22,8 @@
 #include "vh.h"
 #include "env_aio.h"
 #include "env_printf.h"
+/* the unit's reaper calls are counted by the harness (env_aio.c has its own nni_reap for other harnesses) */
+#define nni_reap ws_h_reap
 #include "supplemental/websocket/websocket.c"
 extern int env_locks_held, env_alloc_live;
 
@@ -226,6 +228,14 @@ nni_http_conn_close(nng_http *c)
 	(void) c;
 	conn_closed++;
 }
+static int connects;
+void
+nni_http_client_connect(nni_http_client *c, nni_aio *aio)
+{
+	(void) c;
+	(void) aio;
+	connects++;
+}
 static int reaped;
 void
 nni_reap(nni_reap_list *l, void *i)
@@ -261,6 +271,11 @@ harness(void)
 	NNI_LIST_INIT(&l.headers, ws_header, node);
 	l.proto   = LPROTO ? lproto : NULL;
 	l.started = true;
+	/* the limits configured on the listener (NNG_OPT_RECVMAXSZ, NNG_OPT_WS_RECVMAXFRAME, NNG_OPT_WS_SENDMAXFRAME): any values */
+	l.recvmax  = ND(usz);
+	l.maxframe = ND(usz);
+	l.fragsize = ND(usz);
+	l.isstream = ND(vbool);
 #ifdef LCLOSED
 	l.closed = true;
 #endif
@@ -288,6 +303,12 @@ harness(void)
 		CHECK(resp_written == 1 && hijacked == 1, "the reply is written and the connection taken over");
 		CHECK(nni_list_first(&l.reply) != NULL, "a websocket object waits for the reply to go out");
 		CHECK(!LPROTO || proto_hdr_echoed, "the negotiated protocol is echoed in the reply");
+		{
+			nni_ws *nws = nni_list_first(&l.reply);
+			if (nws != NULL)
+				CHECK(nws->recvmax == l.recvmax && nws->maxframe == l.maxframe && nws->fragsize == l.fragsize && nws->isstream == l.isstream && nws->server,
+				    "C11: the accepted connection's frame decoder runs with exactly the limits configured on the listener (RECVMAXSZ, max frame sizes)");
+		}
 		WITNESS("upgraded");
 	} else {
 		CHECK(status_now != NNG_HTTP_STATUS_SWITCHING, "a request that misses a requirement is never answered with 101");
@@ -299,6 +320,36 @@ harness(void)
 		WITNESS("refused");
 	}
 	CHECK(nni_aio_result(&uaio) == 0, "the handler itself does not fail");
+#elif SIDE == 2
+	/* the dialer's first step (ws_dialer_dial): the connection object is created and the HTTP connect started */
+	static nni_ws_dialer d;
+	nni_mtx_init(&d.mtx);
+	nni_cv_init(&d.cv, &d.mtx);
+	NNI_LIST_INIT(&d.wspend, nni_ws, node);
+	d.proto     = LPROTO ? lproto : NULL;
+	d.recvmax   = ND(usz);
+	d.maxframe  = ND(usz);
+	d.fragsize  = ND(usz);
+	d.isstream  = ND(vbool);
+	d.recv_text = ND(vbool);
+	d.send_text = ND(vbool);
+	(void) conn;
+	env_aio_submit(&uaio);
+	ws_dialer_dial(&d, &uaio);
+	{
+		nni_ws *nws = nni_list_first(&d.wspend);
+		CHECK(nws != NULL && connects == 1 && env_aio_completed(&uaio) == 0, "the dial is pending on the HTTP connect");
+		if (nws != NULL) {
+			CHECK(nws->recvmax == d.recvmax && nws->maxframe == d.maxframe && nws->fragsize == d.fragsize,
+			    "C11: the dialed connection's frame decoder runs with exactly the limits configured on the dialer (RECVMAXSZ, max frame sizes)");
+			CHECK(nws->isstream == d.isstream && nws->recv_text == d.recv_text && nws->send_text == d.send_text && !nws->server, "and with the dialer's mode");
+			WITNESS("dial started");
+			/* tidy up: abort the attempt */
+			nni_aio_abort(&uaio, NNG_ECANCELED);
+			(void) env_run_callbacks();
+			CHECK(env_aio_completed(&uaio) == 1 && nni_aio_result(&uaio) == NNG_ECANCELED, "a cancelled dial completes once with the cancel code");
+		}
+	}
 #else
 	static nni_ws_dialer d;
 	static nni_ws        ws;
